@@ -31,11 +31,14 @@ where
         let n = x.nrows();
         let mut classes = Vec::with_capacity(nclasses);
         let mut likelihood = Array2::zeros((nclasses, n));
+        // classes in label order, so that ties are not broken by the hash map's iteration order
+        let mut joint_log_likelihood = joint_log_likelihood.into_iter().collect::<Vec<_>>();
+        joint_log_likelihood.sort_by(|a, b| a.0.cmp(b.0));
         joint_log_likelihood
             .iter()
             .enumerate()
-            .for_each(|(i, (&key, value))| {
-                classes.push(key.clone());
+            .for_each(|(i, (key, value))| {
+                classes.push((*key).clone());
                 likelihood.row_mut(i).assign(value);
             });
 
